@@ -257,7 +257,8 @@ def run_schedule_scenario(p, wd):
         r = np.random.default_rng(p["seed"] * 977 + lv * 31 + b * 5 + c)
         return r.uniform(0.1, 1.0, size=X.shape)
     pf, path = make_input(dict(p, ndims=3, nf=3), wd, names=names, payload=payload, specials=False)
-    pf2d, path2d = make_input(dict(p, ndims=2, nf=2, n0=[32, 16]), wd, name="plt2d", names=["a", "b"], payload="random", specials=False)
+    pf2d, path2d = make_input(dict({k: v for k, v in p.items() if k not in ("levels", "box_sizes")}, ndims=2, nf=2, n0=[32, 16]), wd,
+                              name="plt2d", names=["a", "b"], payload="random", specials=False)
     sib = gen.make_pf(ndims=3, names=["sigma"], n0=pf.n0, geo_lo=pf.geo_lo, dx0=pf.dx0, levels=pf.levels, time=pf.time, nfiles=2,
                       layout="shuffled", seed=p["seed"] + 3, payload="random")
     sib_path = os.path.join(wd, "plt_sib")
